@@ -7,8 +7,9 @@ sys.path.insert(0, V)
 from sa.selfval import apply_unified_diff
 from sa.model import read_sources
 src = read_sources('/repo')
-for d in sorted(os.listdir(os.path.join(V, 'seeded'))):
-    pp = os.path.join(V, 'seeded', d, 'patch.diff')
+cands = [(d, os.path.join(V, 'seeded', d, 'patch.diff')) for d in sorted(os.listdir(os.path.join(V, 'seeded')))]
+cands += [(d, os.path.join(V, 'neutral', d)) for d in sorted(os.listdir(os.path.join(V, 'neutral'))) if d.endswith('.diff')]
+for d, pp in cands:
     if not os.path.exists(pp):
         continue
     ok = subprocess.run(['git', '-C', '/repo', 'apply', '--check', pp], capture_output=True).returncode == 0
